@@ -200,4 +200,56 @@ is that tail: `storeOk = false` is the error branch. -/
 def mgrAfterAcquire (s : State) (t : Nat) (storeOk : Bool) : Except Fault State :=
   if storeOk then .ok s else step s (.unlock t)
 
+/-! ### the lock users
+
+Every function of the tree that acquires a contract lock.  `driven = true`: an exported
+`contracts.Manager` method that takes the lock internally and returns without it; the harness calls
+it on contracts prepared for each of its return paths and probes the contract afterwards.  The other
+entries are the RPC handlers of rhp/v2 and rhp/v3 that hold the lock across a session/RPC (exercised
+by the revision/revenue engines, listed here so that a *new* lock user is noticed).  The table is
+compared with a go/parser scan of the tree on every run (`Drive/Lock.lean lockUsersStep`). -/
+structure LockUser where
+  pkg      : String
+  fn       : String
+  file     : String
+  line     : Nat          -- of the acquiring call, informational
+  acquires : String
+  releases : String
+  driven   : Bool
+deriving Repr
+
+def lockUsers : List LockUser :=
+  [ { pkg := "host/contracts", fn := "Lock", file := "lock.go", line := 90, acquires := "cm.locks.Lock(ctx, id)",
+      releases := "cm.locks.Unlock(id) before each error return; caller's Manager.Unlock", driven := true },
+    { pkg := "host/contracts", fn := "LockV2Contract", file := "lock.go", line := 122, acquires := "cm.locks.Lock(context.Background(), id)",
+      releases := "cm.locks.Unlock(id) before the error return; returned unlock func", driven := true },
+    { pkg := "host/contracts", fn := "CheckIntegrity", file := "integrity.go", line := 68, acquires := "cm.Lock(ctx, contractID)",
+      releases := "defer cm.Unlock(contractID): count mismatch, Merkle mismatch, success", driven := true },
+    { pkg := "host/contracts", fn := "V2CheckIntegrity", file := "integrity.go", line := 157, acquires := "cm.LockV2Contract(contractID)",
+      releases := "defer unlock(): count mismatch, Merkle mismatch, success", driven := true },
+    { pkg := "rhp/v2", fn := "rpcLock", file := "rpc.go", line := 75, acquires := "sh.contracts.Lock(ctx, req.ContractID)",
+      releases := "session: rpcUnlock / end of session", driven := false },
+    { pkg := "rhp/v3", fn := "handleRPCRenew", file := "rpc.go", line := 305, acquires := "sh.contracts.Lock(ctx, parentID)",
+      releases := "defer sh.contracts.Unlock", driven := false },
+    { pkg := "rhp/v3", fn := "handleRPCExecute", file := "rpc.go", line := 514, acquires := "sh.contracts.Lock(ctx, id)",
+      releases := "defer sh.contracts.Unlock", driven := false },
+    { pkg := "rhp/v3", fn := "processContractPayment", file := "payments.go", line := 26, acquires := "sh.contracts.Lock(ctx, id)",
+      releases := "defer sh.contracts.Unlock", driven := false },
+    { pkg := "rhp/v3", fn := "processFundAccountPayment", file := "payments.go", line := 170, acquires := "sh.contracts.Lock(ctx, id)",
+      releases := "defer sh.contracts.Unlock", driven := false } ]
+
+/-- return paths of a driven lock user after its lock call returned nil -/
+inductive UserPath where
+  | storeError        -- Manager.Lock / LockV2Contract: lookup failed or contract not good for modification
+  | countMismatch     -- len(roots) != Filesize / SectorSize
+  | merkleMismatch    -- MetaRoot(roots) != FileMerkleRoot
+  | success
+deriving DecidableEq, Repr
+
+/-- A lock user as an action of the system: after the acquisition (`lockFresh`, or `lockWait` then
+`recv`) it runs its body *without touching the locker* and releases on every return path.  The path
+decides what it returns, not whether it unlocks. -/
+def userAfterAcquire (s : State) (t : Nat) (_p : UserPath) : Except Fault State :=
+  step s (.unlock t)
+
 end Hostd.Lock
